@@ -286,7 +286,10 @@ func RecoverFile(path string, o *opt.Options) (db *DB, err error) {
 }
 
 func recoverTable(s *session, o *opt.Options) error {
-	o = dupOptions(o)
+	// Tables hold internal keys: read and rebuild them with the session's
+	// options, i.e. with the internal-key comparer and the wrapped filters
+	// (the user's comparer and filter must not be applied to internal keys).
+	o = dupOptions(s.o.Options)
 	// Mask StrictReader, lets StrictRecovery doing its job.
 	o.Strict &= ^opt.StrictReader
 
